@@ -126,6 +126,11 @@ def run(P, chk, tier):
         codecs = {codec_of_call(c)[1] for b, c in calls if codec_of_call(c) and codec_of_call(c)[0] == "enc"}
         want_codec = DOC[opt] if opt != "R" else DOC["T"]        # raw is not legal in a hostname: falls back to Base32
         want_letter = DOC_HOST.get(opt, DOC_HOST["T"])
+        known_ops = set(DOC.values()) | {"raw"}
+        if not letters or not codecs or not codecs <= known_ops:
+            chk.undecided(r1, wn, wn.line, "hostname writer, option %s" % opt,
+                          "prefix letter / codec are not constants selected by a test of the option here (letters %s, codecs %s)" % (sorted(letters), sorted(codecs)))
+            continue
         okw = letters == {want_letter} and codecs == {want_codec}
         chk.site(r1, wn, wn.line, "hostname writer, option %s" % opt, okw,
                  "letter %s codec %s (documented %s %s)" % (sorted(letters), sorted(codecs), want_letter, want_codec))
@@ -145,6 +150,10 @@ def run(P, chk, tier):
                 codecs.add(cc[1])
             if cc and cc[0] == "copy" and "txtbuf" in pp(sk(c["a"][0])):
                 codecs.add("raw")
+        if not letters or not codecs or not codecs <= known_ops:
+            chk.undecided(r1, wd, wd.line, "TXT writer, option %s" % opt,
+                          "prefix letter / codec are not constants selected by a test of the option here (letters %s, codecs %s)" % (sorted(letters), sorted(codecs)))
+            continue
         okw = letters == {DOC_TXT[opt]} and codecs == {DOC[opt]}
         chk.site(r1, wd, wd.line, "TXT writer, option %s" % opt, okw,
                  "letter %s codec %s (documented %s %s)" % (sorted(letters), sorted(codecs), DOC_TXT[opt], DOC[opt]))
@@ -251,38 +260,81 @@ def numbering(P, E, chk, r3, de, dd, tv, qa):
     if site is None:
         raise AnalysisBroken("C09.R3: slot store names[...] not found in dns_decode")
     c, slot = site
-    idx = sk(slot["a"][1])
-    from .c01 import single_defs
-    sd = single_defs(dd)
-    if idx.get("k") == "Ref" and idx["ref"]["id"] in sd:
-        idx = sk(sd[idx["ref"]["id"]])
     tabt = sk(slot["a"][0]).get("t") or {}
     extent = tabt.get("n")
-    # idx = pref / K - 1
-    prefk = None
-    rk = None
-    if idx.get("k") == "Bin" and idx["op"] == "-" and cval(sk(idx["a"][1])) == 1:
-        q = sk(idx["a"][0])
-        if q.get("k") == "Bin" and q["op"] == "/" and cval(sk(q["a"][1])) is not None:
-            prefk, rk = pp(sk(q["a"][0])), cval(sk(q["a"][1]))
-    if prefk is None:
-        chk.site(r3, dd, ir.loc(c), "reader: slot index %s" % pp(idx), False, "not of the form pref / K - 1")
+    # Tabulate the reader over every 16-bit preference: which values reach the slot store, and with which index.
+    # (constant evaluation of dns_decode's own test and index expressions; the domain is complete)
+    from iosa import ceval
+    loc = E.locate(dd, c["n"])
+    store_b = loc[0]
+    # the variable the preference is read into: the last read*(.., &v) before the store whose v the index depends on
+    rd = None
+    for b_, x in dd.calls():
+        if x.get("fn") in ("readshort", "readlong") and ir.loc(x) <= ir.loc(c) and len(x["a"]) >= 3:
+            a2 = sk(x["a"][2])
+            if a2.get("k") == "Un" and a2["op"] == "&" and sk(a2["a"][0]).get("k") == "Ref":
+                if rd is None or ir.loc(x) >= ir.loc(rd[1]):
+                    rd = (b_, x, pp(sk(a2["a"][0])))
+    if rd is None:
+        chk.undecided(r3, dd, ir.loc(c), "reader: slot store", "no read*(.., &v) precedes the slot store")
         return
-    ds = an.before_node(c["n"]) or []
-    okmod = all(guard.d_holds(d, "==", "%s %% %d" % (prefk, rk), 0) for d in ds)
-    oklo = all(guard.d_holds(d, ">=", prefk, rk) for d in ds)
-    his = []
-    for d in ds:
-        lo_, hi_, _ = guard.d_bounds(d, prefk)
-        his.append(hi_)
-    okhi = all(h is not None for h in his)
-    maxidx = (max(his) // rk - 1) if okhi else None
-    chk.site(r3, dd, ir.loc(c), "reader: accepts pref %% %d == 0, pref >= %d" % (rk, rk), okmod and oklo and rk == wk,
-             "writer step %d, reader step %d; facts: multiple %s, lower bound %s" % (wk, rk, okmod, oklo))
-    oksent = okhi and extent is not None and maxidx + 1 < extent
+    pvar = rd[2]
+    start = rd[0].id
+    # blocks from which the store can no longer be reached without going round the record loop again
+    loops = __import__("iosa.fieldinv", fromlist=["_loops"])._loops(dd)
+    heads = [h for h, body in loops.items() if store_b in body]
+    inner = min(heads, key=lambda h: len(loops[h])) if heads else None
+    can = {store_b}
+    changed = True
+    while changed:
+        changed = False
+        for bid, bb in dd.blocks.items():
+            if bid in can or bid == inner:
+                continue
+            if any(s_ in can for s_ in bb.succs if s_ is not None):
+                can.add(bid)
+                changed = True
+    dead = {bid for bid in dd.blocks if bid not in can}
+    acc = {}
+    und = None
+
+    def skip_dead(b_, succs):
+        # a test on values that are not enumerated (the datagram length checks): follow the side that can still reach
+        # the store; if both or neither can, the tabulation is not possible
+        live = [s_ for s_ in succs if s_ is not None and s_ not in dead]
+        if len(live) != 1:
+            raise ceval.Unknown("branch at line %s depends on values outside the tabulation" % ir.loc(b_.term["cond"]))
+        return live[0]
+    for tname in ("T_MX", "T_SRV"):
+        for v in range(0, 65536):
+            env = {pvar: v, "type": tv[tname]}
+            try:
+                r = ceval.run_straight(dd, env, {}, lambda x: x is c, start=start, stop_blocks=dead, maxsteps=60, on_unknown=skip_dead)
+            except ceval.Unknown as ex:
+                und = "preference %d (%s): %s" % (v, tname, ex)
+                break
+            if r is c:
+                try:
+                    acc.setdefault(v, set()).add(ceval.ev(slot["a"][1], env, {}))
+                except ceval.Unknown as ex:
+                    und = "index for preference %d: %s" % (v, ex)
+                    break
+        if und:
+            break
+    if und:
+        chk.undecided(r3, dd, ir.loc(c), "reader: acceptance of preferences", "cannot be tabulated: " + und)
+        return
+    idxs = {i for s_ in acc.values() for i in s_}
+    # writer/reader agreement: the n-th record (preference wk * n) lands in slot n - 1, for every n the table can hold
+    miss = [n for n in range(1, (extent or 1)) if acc.get(wk * n) != {n - 1}]
+    chk.site(r3, dd, ir.loc(c), "reader: record n (preference %d * n) is stored in slot n - 1" % wk, not miss and extent is not None,
+             "for n = 1..%d (all 65536 preferences tabulated, %d accepted)" % ((extent or 1) - 1, len(acc)) if not miss else
+             "record %d (preference %d) is %s" % (miss[0], wk * miss[0], "dropped" if wk * miss[0] not in acc else "stored in slot %s" % sorted(acc[wk * miss[0]])))
+    oksent = bool(idxs) and extent is not None and min(idxs) >= 0 and max(idxs) + 1 < extent
+    worst = max(acc, key=lambda v_: max(acc[v_])) if acc else None
     chk.site(r3, dd, ir.loc(c), "reader: largest slot index leaves a sentinel", bool(oksent),
              "largest accepted preference %s -> index %s of %s slots; the read loop `while (names[i][0])` has no other bound" % (
-                 max(his) if okhi else None, maxidx, extent))
+                 worst, max(idxs) if idxs else None, extent))
     # SRV extras
     wsrv = 0
     _, _, calls = tables.reach_under(de, {"qr": qa, "q->type": tv["T_SRV"]})
@@ -432,7 +484,7 @@ def reserve(P, chk, r7, wn):
             if r.get("k") == "Bin" and r["op"] == "/" and pp(sk(r["a"][0])) == "space" and cval(sk(r["a"][1])):
                 Ds.add(cval(sk(r["a"][1])))
     if K is None or C_ is None or len(Ds) != 1:
-        chk.site(r7, wn, wn.line, "reserve shape", False, "space = MIN(C, buflen) - K; space -= space / D not recognised (K=%s C=%s D=%s)" % (K, C_, sorted(Ds)))
+        chk.undecided(r7, wn, wn.line, "reserve arithmetic", "space = MIN(C, buflen) - K; space -= space / D not recognised (K=%s C=%s D=%s)" % (K, C_, sorted(Ds)))
         return
     D = next(iter(Ds))
     bad = []
